@@ -6,11 +6,11 @@ sys.path.insert(0, os.environ.get("PEPPER_REPO", "/repo"))
 from peppercompiler import compiler as pc
 from peppercompiler import DNA_classes
 
-def comp(entry, out, save, synth, includes):
+def comp(entry, out, save, synth, includes, fixed=None):
     so, se = io.StringIO(), io.StringIO()
     try:
         with contextlib.redirect_stdout(so), contextlib.redirect_stderr(se):
-            pc.compiler(entry, [], out, save, None, synth, includes or None)
+            pc.compiler(entry, [], out, save, fixed, synth, includes or None)
         return True
     except BaseException as e:
         return False
@@ -23,6 +23,6 @@ for h in job["history"]:
     comp(h["entry"], h["out"], h["save"], True, h["includes"])
     os.chdir(home)
 before = DNA_classes.AnonymousSequence.num
-ok = comp(job["entry"], job["out"], job["save"], job["fmt"] == "pil", job["includes"])
+ok = comp(job["entry"], job["out"], job["save"], job["fmt"] == "pil", job["includes"], job.get("fixed"))
 text = open(job["out"]).read() if ok else None
 print(json.dumps({"ok": ok, "text": text, "anon_before": before}))
